@@ -25,7 +25,7 @@ SPECDIR = SPECS / "tb"
 PATHS = {1: "/srv/app/mod.py", 2: "/srv/my app/é dir/mod 2.py", 3: "<string>", 4: "<frozen importlib._bootstrap>"}
 FUNCS = {1: "<module>", 2: "handler", 3: "<lambda>"}
 TYPES = {1: "ValueError", 2: "pkg.mod.CustomError"}
-MSGL = {1: "something failed", 2: "bad value: 42: really", 3: "second line", 4: "", 5: "ünïcode ✓", 6: "    ^ expected an expression", 7: "^^^ here"}
+MSGL = {1: "something failed", 2: "bad value: 42: really", 3: "second line", 4: "", 5: "ünïcode ✓", 6: "    ^ expected an expression", 7: "^^^ here", 8: "    ", 9: "\t"}
 SRC = "result = compute(a, b)  # comment"
 MARK = "    ~~~~~~~^^^^^^"
 
@@ -93,7 +93,9 @@ def chain_source(prog, exc):
                   9: "    raise KeyboardInterrupt()",                                   # BaseExceptions that are not Exceptions
                   10: "    raise SystemExit(3)",
                   11: "    raise make_local_error()('class defined inside a function')",   # qualified name with <locals>
-                  12: "    raise GeneratorExit()"}[exc])
+                  12: "    raise GeneratorExit()",
+                  13: "    raise ValueError('expected a block after:\\n    ')",          # the message's last line is blanks only
+                  14: "    raise ValueError('ends with a line break\\n')"}[exc])
     nxt = "raiser"
     for idx in range(len(prog), 0, -1):
         k = prog[idx - 1]
@@ -173,6 +175,21 @@ def run_chain(row, tmpdir, counter, reuse=False):
         interp = "".join(traceback.format_exception(et, ev, tb))
         if strip_markers(formatted) != strip_markers(interp):
             bad.append(("chain", "formatted-output", {"tbutils": formatted, "interpreter": interp}))
+        # the interpreter's own text (marker lines aside) read back by ParsedException
+        from boltons.tbutils import ParsedException
+        itext = "\n".join(l_ for l_ in interp.split("\n") if not _MARKER_RE.match(l_))     # the final line break stays
+        try:
+            pe = ParsedException.from_string(itext)
+            pframes = [(f_["filepath"], str(f_["lineno"]), f_["funcname"], f_["source_line"].strip()) for f_ in pe.frames]
+            rframes = [(a, str(b), c, d_) for a, b, c, d_ in ref]
+            if pe.exc_msg != str(ev) or pe.exc_type.split(".")[-1] != et.__name__:
+                bad.append(("chain", "from_string(interpreter text): exc_msg/exc_type", {"exc_type": pe.exc_type, "exc_msg": pe.exc_msg, "str(exception)": str(ev)}))
+            elif 8 not in prog and 6 not in prog and pframes != rframes:
+                bad.append(("chain", "from_string(interpreter text): frames", {"parsed": pframes, "traceback": rframes}))
+            elif pe.to_string().rstrip("\n") != itext.rstrip("\n"):
+                bad.append(("chain", "from_string(interpreter text): to_string", {"to_string": pe.to_string(), "text": itext}))
+        except Exception as ex:
+            bad.append(("chain", "from_string(interpreter text) raised:" + core.exc_name(ex), str(ex)[:200]))
         d = ei.to_dict()
         if d["exc_type"].split(".")[-1] != et.__name__ or d["exc_msg"] != str(ev) or len(d["exc_tb"]["frames"]) != len(ref):
             bad.append(("chain", "to_dict", {k: d[k] for k in ("exc_type", "exc_msg")}))
